@@ -27,13 +27,21 @@ def _required():
     per_scen = ["cloned_steps", "idx_next", "idx_rand", "idx_last", "respidx_next", "respidx_rand", "respidx_last",
                 "next_iterator", "rand_iterator", "source_csv", "source_json", "source_variables",
                 "tmpl_randInt", "tmpl_randString", "tmpl_uuid", "pre_randInt", "pre_randString", "pre_uuid",
-                "headers_const", "headers_tmpl", "post_assert", "templater_text", "weighted_scenarios", "repeated_step"]
+                "headers_const", "headers_tmpl", "post_assert", "templater_text", "weighted_scenarios", "repeated_step",
+                "post_fails", "post_fails_always", "post_fails_sometimes", "post_fails_at_auth",
+                "post_fails_agg_phout", "post_fails_agg_jsonlines"]
     cls = ["kind_http", "kind_http_scenario", "kind_grpc", "kind_grpc_scenario", "agg_phout", "agg_jsonlines",
            "obj_provider_queue", "obj_aggregator_phout", "obj_aggregator_jsonlines",
            "obj_shared_client_http", "obj_shared_client_http_scenario", "obj_shared_client_grpc",
            "obj_ammo_pool_grpcjson", "obj_http_preloaded_ammo", "obj_http_streamed_ammo",
            "obj_http_fmt_uri", "obj_http_fmt_uripost", "obj_http_fmt_raw", "obj_http_fmt_jsonline",
            "obj_http_post_jsonpath", "obj_http_post_header_substr", "obj_http_post_xpath", "obj_http_templater_html",
+           "obj_http_date_middleware", "obj_http_date_middleware_custom_header", "obj_http_ammo_redelivered",
+           "obj_http_json_array", "obj_http_host_header_in_file", "obj_http_date_middleware_redelivered",
+           "obj_http_date_middleware_redelivered_no_host_header",
+           "obj_http_post_fails_at_use", "obj_http_post_fails_body", "obj_http_post_fails_status", "obj_http_post_fails_header",
+           "obj_http_post_fails_notjson", "obj_grpc_post_fails_at_list", "obj_grpc_post_fails_at_order", "obj_grpc_post_fails_payload",
+           "invocations_dropped_while_shots_overlap",
            "instances_2_4", "instances_5_8", "instances_9_16", "overlap_measured"]
     cls += ["obj_http_" + c for c in per_scen] + ["obj_grpc_" + c for c in per_scen]
     dropped = set()
@@ -51,18 +59,29 @@ SPEC = {
         {"name": "TestWitnessRandString", "race": True, "quick": 1, "thorough": 1, "shards": 1, "timeout": 600},
         {"name": "TestWitnessGRPCMetadata", "race": True, "quick": 1, "thorough": 1, "shards": 1, "timeout": 600},
     ],
-    "rule": ("rapid-generated pools of every supported kind: http (uri / uripost / raw / http/json ammo, preload on/off), http/scenario, "
+    "rule": ("rapid-generated pools of every supported kind: http (uri / uripost / raw / http/json ammo, preload on/off, http/json also as one "
+             "JSON array whose decoded ammo are served again every pass, uri / uripost with or without a [Host: ..] directive, the built-in "
+             "header/date middleware absent / as it is / with a custom headerName; the limit exceeds the file, so preloaded and array ammo "
+             "are delivered several times to different instances), http/scenario, "
              "grpc (grpc/json), grpc/scenario; shared-client on/off (1-3 clients); phout or jsonlines aggregator writing to the mem-fs; "
              "2-16 instances, 2-6 ammo per instance, target think time 0-2.5 ms. Scenarios are built from switches, one per shared "
              "object: preprocessor row mapping source.users[next|rand|last] on a file/csv or file/json source, [next|rand|last] indexing "
              "of an array taken from an earlier response, randInt / randString / uuid as template functions and as preprocessor "
              "functions, a `variables` source with randomised values, header / metadata maps (none, constants, templates), var/jsonpath, "
              "var/header with lower|upper|replace|substr modifiers, var/xpath, assert/response, text and html templaters, 1-3 weighted "
-             "scenarios sharing the step definitions, repeated steps and sleeps. Pools are decoded by config.DecodeAndValidate and run "
+             "scenarios sharing the step definitions, repeated steps and sleeps; in roughly half of the scenario cases the target gives every k-th "
+             "invocation (k = 1..4) an answer to one chosen step that a postprocessor of that step rejects at run time (assert/response on "
+             "a missing body word, status code or header, var/jsonpath on a body that is not JSON; gRPC: assert/response on a missing "
+             "payload field), so that step fails and the rest of the invocation is dropped while other instances go on. Pools are decoded by config.DecodeAndValidate and run "
              "by the real engine against an in-process target, each case in a child process of the -race test binary. "
              "Non-trivial = >= 2 instances and the gun probes measured >= 2 shots in progress at the same time (every pool shares at "
              "least the provider queue and the aggregator; the classes obj_* name the further shared objects); distinct = hash of the case."),
-    "floors": {_T + "/overlap_measured": 0.8},
+    "floors": {_T + "/overlap_measured": 0.8,
+               # classes added after seeded defects C11/m1 (failing postprocessor) and C11/m2 (request-writing middleware on re-delivered ammo)
+               _T + "/obj_http_post_fails": 0.08, _T + "/obj_grpc_post_fails": 0.08,
+               _T + "/invocations_dropped_while_shots_overlap": 0.15,
+               _T + "/obj_http_date_middleware_redelivered": 0.02,
+               _T + "/obj_http_date_middleware_redelivered_no_host_header": 0.01},
     "required_classes": _required(),
     "manifest": {
         "technique": ("property testing (rapid) under the Go race detector: generated pool configurations run by the real engine in a child "
@@ -76,7 +95,12 @@ SPEC = {
                  "and after the run; at the target every follow-up step presents exactly the token, user id, items, header- and "
                  "xpath-derived values and preprocessor uuid / row of the invocation they were issued to, a token is never presented by "
                  "more steps than one invocation has, values rendered from one source row or one variable into several places of one "
-                 "request agree, random functions stay in their documented ranges, and the aggregator output has no torn lines."),
+                 "request agree, random functions stay in their documented ranges, and the aggregator output has no torn lines and exactly "
+                 "one sample per request the target served - also for steps whose postprocessor failed; after an answer that a step's "
+                 "postprocessors reject no further step of that invocation arrives and the request total is the one of the dropped "
+                 "invocations; with the header/date middleware every request arrives with exactly one well-formed value of the stamped "
+                 "header (what other deliveries of the same preloaded / array ammo were stamped with never arrives), and the decoded "
+                 "ammo kept by the provider or by the http/json array decoder are unchanged by the run."),
         "note": ("Race freedom is established only on the schedules that occurred (each case runs the pool twice; a failing case and its "
                  "shrink candidates are re-run up to 12 times). The race detector only sees accesses that are unordered by "
                  "happens-before; the engine's own atomic counters order whole shots, so only shots that really overlap in time can "
